@@ -363,7 +363,9 @@ func (s *SwapService) OnTxConfirmed(swapId string, txHex string, gotErr error) e
 
 	// First check if we got an error!
 	if gotErr != nil {
+		swap.mutex.Lock()
 		swap.Data.LastErr = err
+		swap.mutex.Unlock()
 		log.Infof("[%s]: got an error from the txwatcher, cancel swap: %v", swapId, err)
 		done, _ := swap.SendEvent(Event_ActionFailed, nil)
 		if done {
@@ -372,7 +374,11 @@ func (s *SwapService) OnTxConfirmed(swapId string, txHex string, gotErr error) e
 	}
 
 	// todo move to eventctx
+	// Other events for this swap (peer messages, timeouts) read and persist
+	// the swap data under the swap lock at the same time.
+	swap.mutex.Lock()
 	swap.Data.OpeningTxHex = txHex
+	swap.mutex.Unlock()
 	done, err := swap.SendEvent(Event_OnTxConfirmed, nil)
 	if err == ErrEventRejected {
 		return nil
@@ -1080,9 +1086,12 @@ func (s *SwapService) createTimeoutCallback(swapId string) func() {
 			return
 		}
 
-		// Reset cancel func
+		// Reset cancel func. Actions set it while they hold the swap lock and a
+		// swap can have more than one timer, so take the lock for the reset.
 		if swap != nil && swap.Data != nil {
+			swap.mutex.Lock()
 			swap.Data.toCancel = nil
+			swap.mutex.Unlock()
 		}
 
 		done, err := swap.SendEvent(Event_OnTimeout, nil)
